@@ -109,7 +109,7 @@ def part_c(rep, tier):
     import pyparsing as pp
     from harness import refsym
     quick = tier == "quick"
-    NW = int(os.environ.get("VERIF_C01_NW", 0)) or (12 if quick else 15)
+    NW = int(os.environ.get("VERIF_C01_NW", 0)) or (13 if quick else 16)
     G, parser = gcommon.load_grammar()
     tok, length = gram.mk_stream(NW, "w")
     t0 = time.time()
